@@ -5,7 +5,7 @@ from heap_common import HeapSpec, PQSpec
 
 SPECS = {"scale": (ScaleSpec(['heap']), "harness", "runner"), "heap": (HeapSpec(iterators=False), "harness", "runner"), "pq": (PQSpec(iterators=False), "harness", "runner")}
 
-PROP_FILES = ["C05", "TranslatedHeap", "TranslatedPQ"]
+PROP_FILES = ["C05", "TranslatedHeap", "TranslatedPQ", "TranslatedHeapRun"]
 
 
 def run(ctx):
